@@ -11,7 +11,8 @@ RULE = ('site_enum: exhaustive enumeration of every predefined site class x para
         'conserve option x sort_charge; per site: operators equal the conserve=None operators after the documented perm, state labels, '
         'defining algebra (spin commutators and Casimir, (truncated) boson commutator, fermionic CAR incl. the on-site JW convention of '
         'spinful fermions, JW = (-1)^N, clock relations), hc_ops pairs are adjoints, need_JW <=> anticommutes with JW, operator '
-        'products via get_op, charge_to_JW_signs. grouped_enum: every GroupedSite of 2-3 (heterogeneous) sites x charges in '
+        'products via get_op, charge_to_JW_signs; the same generic clauses once more after rename_op of every second operator, after '
+        'add_op of a product operator (with its hc and JW flag) and after remove_op. grouped_enum: every GroupedSite of 2-3 (heterogeneous) sites x charges in '
         '{same, drop, independent} (+ set_common_charges variants): grouped operators equal the Kronecker product with the JW of the '
         'left sites folded in, in the basis named by the grouped state labels. manybody: generated chains (L <= 5) mixing fermionic '
         'and non-fermionic sites; every term routed through the library (TermList -> Onsite/Coupling/MultiCouplingTerms -> MPO graph, '
